@@ -72,3 +72,4 @@ import Spydr.Edif.Props.Fragment
 #print axioms Spydr.Edif.C05.edif_reader_spec_kwcase_text
 #print axioms Spydr.Edif.C03.fragment_check_sound
 #print axioms Spydr.Edif.C05.fragment_check_sound
+#print axioms Spydr.Edif.C03.compose_after_parse
